@@ -60,7 +60,7 @@ func (h *apiHist) after(e *env, term string, entry any) {
 	cnt := h.mp.CountTx()
 	h.terms = append(h.terms, emit.Pair(term, emit.ZI(int64(cnt))))
 	h.log = append(h.log, entry)
-	if h.premise && cnt != len(h.pend) {
+	if cnt != len(h.pend) { // every history and configuration (theorem count_and_capacity)
 		e.run.Violate("C19:count-differs-from-pending", fmt.Sprintf("CountTx()=%d but %d transactions are pending (MaxTx=%d)", cnt, len(h.pend), h.maxTx), h.replay())
 	}
 	if h.maxTx > 0 && cnt > h.maxTx {
@@ -201,6 +201,17 @@ func (h *apiHist) position(e *env, kind string, it sdkmempool.Iterator, panicked
 			// a full, undisturbed iteration: the property, directly
 			hh := &hist{pend: h.pend, premise: true, log: h.log}
 			hh.oracle(e, h.itOut, false, entry)
+		} else if h.itClean {
+			// outside the premise: the soundness half (theorem select_sound_any_history)
+			ids := make([]sn, len(h.itOut))
+			for i, t := range h.itOut {
+				ids[i] = sn{t.sender, t.seq}
+			}
+			prio := map[sn]int64{}
+			for k, p := range h.pend {
+				prio[k] = p.prio
+			}
+			oracleSN(e, ids, prio, h.replay(), false)
 		} else if !h.itClean && len(h.itOut) < len(h.pend) {
 			h.feats["truncated-by-interleaving"] = true
 			e.run.Count("api-iterator", "ended early after an interleaved mutation")
@@ -366,6 +377,20 @@ func (e *env) genAPIHistory() {
 				// while an iterator is open, prefer the transaction it stands on / the one just behind it
 				if h.it != nil && len(h.itOut) > 0 && r.Intn(2) == 0 {
 					t := h.itOut[len(h.itOut)-1-r.Intn(min(2, len(h.itOut)))]
+					if r.Intn(2) == 0 {
+						// a LATER transaction of the sender just yielded: the iterator may stand on its index node
+						var later []sn
+						for _, k := range keys {
+							if k.s == t.sender && k.n > t.seq {
+								later = append(later, k)
+							}
+						}
+						if len(later) > 0 {
+							k := later[len(later)-1-r.Intn(min(2, len(later)))]
+							h.remove(e, k.s, k.n)
+							break
+						}
+					}
 					h.remove(e, t.sender, t.seq)
 				} else {
 					k := keys[r.Intn(len(keys))]
